@@ -270,7 +270,7 @@ def initC (i : SInput) : CSt :=
                 flags := i.workers.map fun _ => false } 0
 
 /-- enough fuel for every run (see `TTV.Props.C13`) -/
-def fuelC (i : SInput) : Nat := 4 * remaining (initC i).base + 4 * i.workers.length + 8
+def fuelC (i : SInput) : Nat := 3 * remaining (initC i).base + 10 * i.workers.length + 4
 
 def finalC (i : SInput) : CSt := drainC i (fuelC i) (runC i (initC i) i.sched)
 
